@@ -8,6 +8,7 @@ import (
 	"encoding/json"
 	"fmt"
 	"io"
+	"math"
 
 	"github.com/dtn7/cboring"
 )
@@ -43,6 +44,11 @@ func (hcb HopCountBlock) IsExceeded() bool {
 
 // Increment the hop counter and returns if the hop limit is exceeded afterwards.
 func (hcb *HopCountBlock) Increment() bool {
+	if hcb.Count == math.MaxUint8 {
+		// The counter cannot grow any further, another hop exceeds every possible limit.
+		return true
+	}
+
 	hcb.Count++
 
 	return hcb.IsExceeded()
